@@ -179,6 +179,11 @@ structure Ctx where
   growthFactor : Nat := 64
   classes : Array (List Nat) := #[]   -- the linear (output) classes of the Silf class map
   gattr : Array (Array Int) := #[]    -- glyph attributes: `gattr[gid][attr]`
+  -- ghost state mirroring the GRAPHITE2_VERIF hook of Pass::runGraphite: the worst rule-loop count and its bound, number of reports
+  vIter : Nat := 0
+  vBound : Nat := 0
+  vCalls : Nat := 0
+  vExceeded : Bool := false
   deriving Repr
 
 inductive Outcome where
